@@ -23,7 +23,7 @@ def pack (hi lo : UInt8) : UInt8 := (hexCharToByte hi <<< 4) ||| hexCharToByte l
 /-- the loop `for i := 0; i < len(msin); i += 2 { append … }` -/
 def packMsin : Bytes → Bytes
   | [] => []
-  | [a] => [(0xf <<< 4) ||| hexCharToByte a]
+  | [a] => [((0xf : UInt8) <<< 4) ||| hexCharToByte a]
   | a :: b :: rest => pack b a :: packMsin rest
 
 /-- `EncodeSuci(imsi, mncLen).Buffer` (`Len` is `uint16(len(Buffer))`). -/
@@ -39,7 +39,7 @@ def encodeSuci (imsi : Bytes) (mncLen : Int) : Res Bytes :=
     else
       match t3 with
       | i3 :: i4 :: msin =>                  -- imsi[4] and imsi[5:] need len ≥ 5
-        .ok ([0x01, pack i1 i0, (0xf <<< 4) ||| hexCharToByte i2, pack i4 i3, 0xf0, 0xff, 0x00, 0x00] ++ packMsin msin)
+        .ok ([0x01, pack i1 i0, ((0xf : UInt8) <<< 4) ||| hexCharToByte i2, pack i4 i3, 0xf0, 0xff, 0x00, 0x00] ++ packMsin msin)
       | _ => .error .panic
   | _ => .error .panic                       -- imsi[1] / imsi[2]
 
